@@ -147,6 +147,32 @@ def entry_points(j, version, allow, is_observable_type):
             s.load_from_file(p, version=version)
             return s.query([])
         return f
+    # the same content inside a bundle ENVELOPE that states its own spec_version (or none): the version named on the call decides, not the envelope
+    for env_sv in (None, "2.0", "2.1"):
+        bj = {"type": "bundle", "id": "bundle--3f7f0c5f-5d54-4292-94ea-ec1e1952be0c", "objects": [copy.deepcopy(j)]}
+        if env_sv:
+            bj["spec_version"] = env_sv
+        tag = "[bundle envelope spec_version=%s]" % env_sv
+
+        def b_add(cls, bj=bj):
+            def f():
+                s = cls(**kw)
+                s.add(copy.deepcopy(bj), version=version)
+                return back(s) if cls is MemoryStore else sink_content(s)
+            return f
+        eps.append(("MemoryStore.add(version=)" + tag, b_add(MemoryStore)))
+        eps.append(("MemorySink.add(version=)" + tag, b_add(MemorySink)))
+        eps.append(("MemorySource(data, version=)" + tag, lambda bj=bj: back(MemorySource(copy.deepcopy(bj), version=version, **kw))))
+
+        def b_load(bj=bj):
+            d = sc.fresh()
+            p = os.path.join(d, "in.json")
+            with open(p, "w") as fh:
+                json.dump(bj, fh)
+            s = MemoryStore(**kw)
+            s.load_from_file(p, version=version)
+            return s.query([])
+        eps.append(("MemoryStore.load_from_file(version=)" + tag, b_load))
     eps.append(("MemoryStore.load_from_file(version=)", load_file(MemoryStore)))
     eps.append(("MemorySource.load_from_file(version=)", load_file(MemorySource)))
     import re
@@ -231,6 +257,18 @@ def run_case(case, part):
                 if is_obs and "id" not in j:
                     ref, _ = outcome(lambda: stix2.parse_observable(copy.deepcopy(j), version=version, **({} if allow is None else {"allow_custom": allow})))
                 part.outcome("reference:" + ref[0])
+                # ABSOLUTE clauses (the differential below cannot see a defect that moves the reference together with the entry points):
+                # a named version yields a class of THAT version's module or nothing; identifiers that 2.0 forbids are refused whenever 2.0 is named
+                if version is not None and ref[0] == "class" and not ref[1].startswith("v%s." % version.replace(".", "")):
+                    part.violation("C14/class-of-another-version/parse/named=%s" % version, "a parse that names a version returns a class of the other version",
+                                   dict(case, id_class=idc, version=version, allow_custom=allow, entry="parse"), "v%s.* or a refusal" % version.replace(".", ""), ref[1])
+                if version == "2.0" and idc != "uuid4" and "id" in j and ref[0] == "class":
+                    part.violation("C14/named-2.0-accepts-non-v4-identifier/%s" % idc, "naming version 2.0 does not enforce the 2.0 identifier rule", dict(case, id_class=idc, version=version, allow_custom=allow, entry="parse"),
+                                   "refused", ref[1])
+                known20 = key in model.spec("2.0").classes
+                if version == "2.0" and not known20 and ref[0] == "class":
+                    part.violation("C14/named-version-does-not-know-the-type/parse", "a type that does not exist in the named version is parsed with another version's class",
+                                   dict(case, id_class=idc, version=version, allow_custom=allow, entry="parse"), "refused (strict) / plain dict (permissive)", ref[1])
                 for name, fn in entry_points(j, version, allow, is_obs):
                     part.evaluations += 1
                     part.transitions += 1
@@ -251,6 +289,9 @@ def run_case(case, part):
                             part.violation("C14/differs-from-direct-parse/%s/version-arg=%s" % (name.split("(")[0], version), "a store entry point accepts or refuses differently from a direct parse with the same version",
                                            dict(case, id_class=idc, version=version, allow_custom=allow, entry=name), exp[0], got[0])
                         continue
+                    if version is not None and got[0] == "class" and not got[1].startswith("v%s." % version.replace(".", "")):
+                        part.violation("C14/class-of-another-version/%s/named=%s" % (name.split("(")[0], version), "an entry point that was given a version returns a class of the other version",
+                                       dict(case, id_class=idc, version=version, allow_custom=allow, entry=name), "v%s.* or a refusal" % version.replace(".", ""), got[1])
                     if got[0] == "absent" and exp[0] == "refused":
                         got = ("refused", None)      # a read path that skips / hides a file it cannot parse is a refusal too
                     if got != exp and not (got[0] == "refused" and exp[0] == "refused"):
